@@ -324,16 +324,52 @@ def load_known():
 
 
 def _matcher_k2(tr, raw_index):
-    """K2: the job started at the violating launch lacks a row only for blockers that never ran at all (missing and
-    not selected) -- not for blockers that are themselves being rerun."""
+    """K2: the job started (or handed over) at the violating event lacks an outcome only for blockers that were missing
+    and that the latest resubmit-jobs (run with --no-missing) did not select for rerun -- not for blockers that are
+    themselves being rerun.  The rerun set is computed as the monitor computes it (selection by the flags from the last
+    results summary, closed under dependents)."""
     if raw_index is None:
         return False
     e = tr["ev"][raw_index]
-    if e.get("e") != "launch":
+    res = None
+    for i in range(raw_index - 1, -1, -1):
+        x = tr["ev"][i]
+        if x.get("e") == "proc" and x.get("k") == "resubmit-jobs":
+            res = i
+            break
+    if res is None:
         return False
-    lacking = [k for k in tr["scn"]["blk"][e["job"]] if k not in e["rows"]]
-    launched_before = {x["job"] for x in tr["ev"][:raw_index] if x.get("e") == "launch"}
-    return bool(lacking) and all(k not in launched_before for k in lacking)
+    fl = tr["ev"][res].get("flags", [])
+    if "--no-missing" not in fl:
+        return False
+    summ = None
+    for x in reversed(tr["ev"][:res]):
+        if x.get("e") == "summary":
+            summ = x
+            break
+    if summ is None:
+        return False
+    sel = set()
+    for r in summ["res"]:
+        cls = "canceled" if r[2] == "canceled" else ("successful" if int(r[1]) == 0 else "failed")
+        if (cls in ("failed", "canceled") and "--no-failed" not in fl) or (cls == "successful" and "--successful" in fl):
+            sel.add(r[0])
+    blk = tr["scn"]["blk"]
+    while True:
+        more = {j for j in tr["scn"]["jobs"] if set(blk.get(j, [])) & sel} - sel
+        if not more:
+            break
+        sel |= more
+    missing = set(summ["missing"])
+    if e.get("e") in ("sbatch", "cfgbatch"):
+        # the same defect seen one step earlier: the batch is handed over without the never-run blocker in its wait list
+        lacking = [k for i, j in enumerate(e["jobs"]) for k in blk.get(j, [])
+                   if k not in e["rows"] and k not in (e["hb"][i] if i < len(e["hb"]) else [])]
+    elif e.get("e") == "launch":
+        lacking = [k for k in blk[e["job"]] if k not in e["rows"]]
+    else:
+        return False
+    return bool(lacking) and all(k in missing and k not in sel for k in lacking)
 
 
 MATCHERS = {"k2": _matcher_k2}
@@ -390,7 +426,7 @@ class Ctx:
         return res
 
     def impl_model(self, name, scns, maxb=3, maxuser=3, fixed=None, simulate=None, max_replay=400, invariants=None,
-                   timeout=1500, faults=(), maxfaults=0):
+                   timeout=1500, faults=(), maxfaults=0, usercancel=False):
         """Explore JadeImpl on the given scenarios (exhaustively, or by simulation), then replay the behaviours TLC
         produced into the real code: events predicted by the model vs. events observed (conformance), and the real
         traces are judged by the monitor like any other."""
@@ -405,6 +441,7 @@ class Ctx:
         cfg = ["SPECIFICATION Spec", "CONSTANTS", "  Scns <- ScnSet", f"  MaxB = {maxb}", f"  MaxUser = {maxuser}",
                "  Monitor = TRUE", "  Log = TRUE", "  Fixed = {%s}" % ", ".join(json.dumps(x) for x in sorted(fixed or FIXED)),
                "  FaultKinds = {%s}" % ", ".join(json.dumps(x) for x in faults), f"  MaxFaults = {maxfaults}",
+               "  UserCancels = " + ("TRUE" if usercancel else "FALSE"),
                "VIEW View"] + [f"INVARIANT {i}" for i in invs] + ["INVARIANT DumpBehaviour", "CHECK_DEADLOCK FALSE"]
         cfgp = os.path.join(gen, mod + ".cfg")
         with open(cfgp, "w") as f:
@@ -481,7 +518,16 @@ class Ctx:
             os.remove(path)
             out = res["out"]
             if res["rc"] != 0 or "Model checking completed" not in out:
-                raise tlc.TlcError("JadeImplPath failed:\n" + tlc_digest(out) + out[-1500:])
+                # the specification could not even evaluate a step of some recorded run (an operation with arguments
+                # outside the model's domains): on a changed tree that is drift, never a verdict and never a failure
+                errs = [x for x in out.split("\n") if x.startswith("Error:")][:2]
+                if not re.search(r'<<"AT", \d+, [1-9]\d*>>', out):
+                    # not a single step of any run could be taken: the specification itself is broken
+                    raise tlc.TlcError("JadeImplPath failed before taking a step:\n" + out[-2000:])
+                conf["stuck"] += len(part)
+                conf["tlc_errors"] = conf.get("tlc_errors", 0) + 1
+                self.notes.append("model-drift (code->model): JadeImplPath could not evaluate a recorded run: " + " ".join(errs)[:300])
+                continue
             states += res["distinct"]
             at = {}
             for mm in re.finditer(r'<<"AT", (\d+), (\d+)>>', out):
@@ -524,7 +570,7 @@ class Ctx:
             cfgp = os.path.join(gen, mod + ".cfg")
             with open(cfgp, "w") as f:
                 f.write("\n".join(["SPECIFICATION FairSpec", "CONSTANTS", "  Scns <- ScnSet", f"  MaxB = {maxb}", f"  MaxUser = {mu}",
-                                   "  Monitor = FALSE", "  Log = FALSE", "  FaultKinds = {}", "  MaxFaults = 0",
+                                   "  Monitor = FALSE", "  Log = FALSE", "  FaultKinds = {}", "  MaxFaults = 0", "  UserCancels = FALSE",
                                    "  Fixed = {%s}" % ", ".join(json.dumps(x) for x in sorted(fixed or FIXED)),
                                    "PROPERTY EventuallyComplete", "CHECK_DEADLOCK FALSE"]) + "\n")
             res = tlc.run_tlc(mod, cfg=cfgp, workers=NCPU, cwd=gen, timeout=1500)
@@ -911,8 +957,9 @@ def check_C10(ctx):
         try:
             res = small_model(ctx, f"ClusterStore {plan['id']}", "ClusterStore",
                               {"Scripts": plan["scripts"], "Scn": scenario.tla_scn(run_api.cluster_scn(), plan["id"]), "Log": True,
-                               "FixedF9": "F9" in FIXED},
-                              ["P_C10", "N_OneRole", "N_RoleMatchesDisk", "N_VersionFilesAgree"])
+                               "FixedF9": "F9" in FIXED, "Modern": bool(plan.get("modern"))},
+                              ["P_C10", "N_OneRole", "N_RoleMatchesDisk"] +
+                              (["N_VersionFileNeverBehind", "N_AheadOnlyAfterCrash"] if plan.get("modern") else ["N_VersionFilesAgree"]))
         except tlc.TlcError as e:
             # a counterexample of the model is first replayed on the real code: only a real trace can be a violation
             cp = cex_path(str(e))
@@ -1065,6 +1112,12 @@ def check_C12(ctx):
 
 def check_C14(ctx):
     q = ctx.tier == "quick"
+    # JadeImpl with the user's cancel-jobs enabled in every state (TLC: every moment of cancellation), replayed into the code
+    mfam = [families.scn("ABC", groups=[families.G(size=1, procs=1)], maxnodes=2),
+            families.scn("ABC", blk={"C": ["A"]}, groups=[families.G(size=2, tryadd=False, procs=2)], maxnodes=1)]
+    qfam = [families.scn("AB", groups=[families.G(size=1, procs=1)], maxnodes=1)]
+    ctx.impl_model("JadeImpl + cancel-jobs at any moment", qfam if q else mfam, maxb=2 if q else 3, maxuser=2 if q else 4, usercancel=True,
+                   max_replay=150 if q else 3000, timeout=3000)
     bases = [
         families.scn("ABCD", groups=[families.G(size=1, procs=1)], maxnodes=2),
         families.scn("ABCD", blk={"B": ["A"], "D": ["C"]}, groups=[families.G(size=1, procs=1)], maxnodes=2),
@@ -1284,8 +1337,55 @@ def liveness_extra(ctx):
                       maxb=3 if q else 4, maxuser=4 if q else 5)
 
 
+def cancel_shapes_extra(ctx):
+    """Every 3-job DAG x cancel flags x one failing job x placement (one node batch / one batch per job / two per batch)"""
+    q = ctx.tier == "quick"
+    space = []
+    for blk in all_small_dags(3):
+        for fail in "ABC":
+            if not any(fail in blk.get(j, []) for j in "ABC"):
+                continue            # the failing job has no dependent: nothing to cancel
+            for fmask in range(8):
+                for gi, g in enumerate([families.G(size=3, tryadd=True, procs=1), families.G(size=3, tryadd=True, procs=3),
+                                        families.G(size=1), families.G(size=2, tryadd=True, procs=2)]):
+                    space.append((blk, fail, fmask, gi, g))
+    ctx.extra["cancel_shapes_space"] = len(space)
+    rng = random.Random(ctx.seed + 41)
+    tasks = []
+    for i, (blk, fail, fmask, gi, g) in enumerate(space):
+        scn = families.scn("ABC", blk=blk, flag="".join(j for k, j in enumerate("ABC") if fmask >> k & 1), rc={fail: 1 + i % 2},
+                           groups=[g], maxnodes=(0, 1, 2)[i % 3])
+        for s in range(1 if q else 4):
+            tasks.append(("scn", (scn, ctx.seed + 7 * i + s)))
+    ctx.judge(run_tasks(tasks), "cancellation shapes: all 3-job DAGs x flags x failing job x placement")
+    # the node-level queue of the model on the shapes where a flagged and an unflagged dependent share a failed blocker
+    ctx.impl_model("JadeImpl cancellation on the node and by a submitter",
+                   [families.scn("ABC", blk={"B": ["A"], "C": ["A"]}, flag="B", rc={"A": 1},
+                                 groups=[families.G(size=3, tryadd=True, procs=1)], maxnodes=0),
+                    families.scn("ABC", blk={"B": ["A"], "C": ["A", "B"]}, flag="C", rc={"A": 1},
+                                 groups=[families.G(size=2, tryadd=True, procs=2)], maxnodes=2)],
+                   maxb=3, maxuser=3, max_replay=60 if q else 400)
+
+
+CHECKS["C04"] = make_protocol_check(11, extra=cancel_shapes_extra)
 CHECKS["C05"] = make_protocol_check(12, extra=liveness_extra)
-CHECKS["C02"] = make_protocol_check(14, extra=histories_extra)     # dependency order also when jobs are rerun
+def order_extra(ctx):
+    """Histories with resubmissions and cancellations; runs in which the scheduler answers status queries with an empty listing"""
+    histories_extra(ctx)
+    q = ctx.tier == "quick"
+    # dependency order does not rest on what the scheduler says: a status query answered "no jobs" (exit 0, as during a
+    # controller restart) while batches are active must not let a blocked job start
+    tasks = [("random_hpc", (s, dict(n_min=3, n_max=6, groups_max=2, squeue_lies=1.0))) for s in seeds(ctx, 160 if q else 3000, 73)]
+    for skip in range(0, 3):
+        for n in (1, 2):
+            for sd in range(12 if q else 60):
+                sc = families.scn("AXB", blk={"B": ["A"]}, groups=[families.G(size=1)], maxnodes=0, squeue_empty=n,
+                                  squeue_empty_skip=skip, faults=True)
+                tasks.append(("scn", (sc, ctx.seed + sd)))
+    ctx.judge(run_tasks(tasks), "status queries answered with an empty listing while batches are active")
+
+
+CHECKS["C02"] = make_protocol_check(14, extra=order_extra)     # dependency order also when jobs are rerun
 CHECKS["C09"] = make_protocol_check(15, extra=histories_extra)
 # C06 also under failing scheduler queries: the limit is stated for every instant, not only for fault-free runs
 CHECKS["C06"] = make_protocol_check(16, gen_kw=dict(squeue_faults=0.4, n_min=3))
